@@ -96,6 +96,9 @@ def universe(extra, L, base='ab\n'):
     out = ['']
     for l in range(1, L + 1):
         out.extend(''.join(t) for t in itertools.product(sigma, repeat=l))
+    # a few texts that begin / end with characters some I/O layers treat specially
+    out += ['\ufeff' + sigma[0], '\ufeff' + sigma[0] + sigma[1], sigma[0] + '\ufeff', '\ufeff', '\x00' + sigma[0], sigma[0] + '\x00' + sigma[1], '\r' + sigma[0],
+            sigma[0] + '\r\n' + sigma[1], '\x1a' + sigma[0], sigma[0] + '\u2028' + sigma[1]]
     return out
 
 
